@@ -77,8 +77,8 @@ func setup() {
 	}
 	// a family of files with DIFFERENT embedded profiles (so that buffers shared between concurrent or successive
 	// loads show as wrong bytes) and damaged variants (error paths release resources too)
-	for i := 0; i < 8; i++ {
-		prof := build.SimpleProfile(build.TextDesc(fmt.Sprintf("profile number %d", i)), 300+i*517)
+	for i := 0; i < 80; i++ { // more distinct profiles than any plausible small cache has slots
+		prof := build.SimpleProfile(build.TextDesc(fmt.Sprintf("profile number %d", i)), 300+(i%8)*517+i/8)
 		for k := range prof[200:] {
 			prof[200+k] ^= byte(i*37 + k)
 		}
@@ -232,7 +232,7 @@ func run(op trial.Op) uint64 {
 		}
 		return digest(o.OK, o.Format, o.W, o.H, o.Bits, o.ICC, o.ICCErr, d)
 	case "LoadFamily":
-		// one of 24 files with different profiles; every fourth call loads a damaged file first
+		// one of 240 files with different profiles; every fourth call loads a damaged file first
 		if a%4 == 0 {
 			ld.Run("auto", bytes.NewReader(damaged[a%len(damaged)]))
 		}
